@@ -24,6 +24,7 @@ def check(repo: Repo, rep, tier):
     site_key(repo, rep)
     reeval_refresh(repo, rep)
     items_total(repo, rep)
+    argument_kinds(repo, rep)
 
 
 def no_flags(v):
@@ -163,3 +164,70 @@ def forward_eq(repo: Repo, rep):
             rep.violation("R-FORWARD-EQ", m, m.node, f"{cname}.__eq__ returns {short(bad[0].ret) if bad else 'nothing'} instead of `self.value == other`", construct=f"{cname}.__eq__")
         else:
             rep.ok("R-FORWARD-EQ", m, m.node, f"{cname}.__eq__ forwards to the wrapped value")
+
+
+# constructor kinds the user cannot write in a snapshot at all (the snapshot argument itself would
+# not evaluate); one line of reason each
+KIND_EXEMPT = {
+    ("PydanticContainer", "int"): "pydantic's BaseModel.__init__ accepts keyword arguments only: a positional argument in the snapshot raises TypeError before any comparison",
+}
+
+
+def _rejected_kinds(m) -> set:
+    """kinds of `pos_or_name` an `argument` override refuses: an `assert isinstance(p, T)` that every
+    path passes (not under a condition) - T in {str, int}."""
+    if len(m.params) < 3:
+        return set()
+    p = m.params[2]
+    out = set()
+    for st in m.node.body:
+        if isinstance(st, ast.Assert) and isinstance(st.test, ast.Call) and norm(st.test.func) == "isinstance" and len(st.test.args) == 2 and norm(st.test.args[0]) == p:
+            t = st.test.args[1]
+            names = {norm(x) for x in (t.elts if isinstance(t, ast.Tuple) else [t])}
+            for k in ("str", "int"):
+                if k not in names:
+                    out.add(k)
+    return out
+
+
+def argument_kinds(repo: Repo, rep):
+    rep.rule(
+        "R-ARGUMENT-KINDS",
+        "sibling agreement between GenericCallAdapter.assign and the `argument(value, pos_or_name)` override of every call adapter: assign asks for an "
+        "argument by *position* for every positional argument the user wrote in the snapshot and by *name* for every keyword, so an override that asserts "
+        "one kind away (`assert isinstance(pos_or_name, str)`) turns `x == snapshot(T(1, 2))` into an AssertionError although the values are equal; "
+        "exempt only where the constructor cannot be written that way at all (table KIND_EXEMPT)",
+    )
+    g = repo.cls("GenericCallAdapter")
+    assign = repo.lookup_method(g, "assign")
+    # which kinds does assign pass?  enumerate-index / int -> "int"; kw.arg / dict key -> "str"
+    kinds = set()
+    if assign is not None:
+        for c in body_nodes(assign.node):
+            if isinstance(c, ast.Call) and isinstance(c.func, ast.Attribute) and c.func.attr == "argument" and len(c.args) == 2:
+                a = c.args[1]
+                kinds.add("str" if (isinstance(a, ast.Attribute) and a.attr == "arg") or (isinstance(a, ast.Name) and a.id in ("key", "name")) else "int")
+    rep.floor("R-ARGUMENT-KINDS", "kinds of argument() requests in assign", len(kinds), 2)
+    subs = repo.subclasses(g)
+    rep.floor("R-ARGUMENT-KINDS", "call adapters", len(subs), 5)
+    for c in subs:
+        m = repo.lookup_method(c, "argument")
+        if m is None or m.cls == g:
+            rep.violation("R-ARGUMENT-KINDS", list(c.methods.values())[0], c.node, f"{c.name} has no `argument` of its own: every comparison raises NotImplementedError", construct=f"{c.name}:missing")
+            continue
+        rej = _rejected_kinds(m)
+        for k in sorted(kinds):
+            if k not in rej:
+                rep.ok("R-ARGUMENT-KINDS", m, m.node, f"{c.name}.argument accepts {k}")
+            elif (c.name, k) in KIND_EXEMPT:
+                rep.ok("R-ARGUMENT-KINDS", m, m.node, f"{c.name}.argument rejects {k}: exempt - {KIND_EXEMPT[(c.name, k)]}")
+            else:
+                what = "a positional argument" if k == "int" else "a keyword argument"
+                rep.violation(
+                    "R-ARGUMENT-KINDS",
+                    m,
+                    m.node,
+                    f"{c.name}.argument asserts that it is never asked by {'position' if k == 'int' else 'name'}, but GenericCallAdapter.assign does so for {what} written in the snapshot: "
+                    f"the comparison raises AssertionError even when the values are equal",
+                    construct=f"{c.name}.argument:{k}",
+                )
